@@ -34,5 +34,6 @@ PROPS = {"C09": dict(
     technique="grammar-based chain generation at HTTP level with construction-known validity and independent RFC 6962 entry derivation",
     budget={"quick": 1500, "thorough": 3600},
     units=[
-        rapid("ctlog", "internal/ctlog", "^TestVerifC09Submissions$", 60, 420),
+        # VERIF_C09_POISON_TWICE=1: since the fix (known_findings.json, fixed) the duplicated-poison shape takes part in the generator
+        rapid("ctlog", "internal/ctlog", "^TestVerifC09Submissions$", 60, 420, env={"VERIF_C09_POISON_TWICE": "1"}),
     ] + _finding)}
